@@ -37,6 +37,25 @@ VARIANTS = {
 }
 
 
+class FileLock:
+    """advisory lock so that concurrent checks do not race in the shared build directories"""
+
+    def __init__(self, name):
+        os.makedirs(CACHE, exist_ok=True)
+        self.path = os.path.join(CACHE, name + ".lock")
+
+    def __enter__(self):
+        import fcntl
+        self.f = open(self.path, "w")
+        fcntl.flock(self.f, fcntl.LOCK_EX)
+        return self
+
+    def __exit__(self, *a):
+        import fcntl
+        fcntl.flock(self.f, fcntl.LOCK_UN)
+        self.f.close()
+
+
 def sh(cmd, timeout=600, cwd=None, inp=None, env=None):
     """run a command; returns (rc, stdout, stderr); rc = -9 on timeout"""
     e = dict(os.environ)
@@ -94,6 +113,11 @@ def _prune(prefix, keep):
 
 def build_lib(variant="plain"):
     """static library of /repo's current tree with -DMORFUSE_VERIF; returns (archive, include flags)"""
+    with FileLock("lib-" + variant):
+        return _build_lib(variant)
+
+
+def _build_lib(variant):
     flags = ["-std=c++17", "-w", "-D%s=1" % GUARD] + VARIANTS[variant]
     key = digest_files(repo_all_files(), " ".join(flags))
     name = "lib-%s-%s" % (variant, key)
@@ -193,8 +217,9 @@ def coq_project():
 
 def coq_make(targets, timeout=1500):
     """full .vo build of the given targets; returns (ok, log)"""
-    coq_project()
-    rc, o, e = sh(["make", "-k", "-j%d" % NPROC] + list(targets), cwd=COQ, timeout=timeout)
+    with FileLock("coq"):
+        coq_project()
+        rc, o, e = sh(["make", "-k", "-j%d" % NPROC] + list(targets), cwd=COQ, timeout=timeout)
     return rc == 0, o + e
 
 
@@ -203,7 +228,8 @@ def coq_property_file(cid, timeout=600):
     the Print Assumptions output.  returns dict(ok, theorems=[names], assumptions={name: [...]}, log)"""
     src = os.path.join(COQ, cid, "Properties.v")
     names = re.findall(r"^\s*Theorem\s+([A-Za-z0-9_']+)", open(src).read(), re.M)
-    rc, o, e = sh(["coqc", "-Q", ".", "Morfuse", "-w", "-all", os.path.join(cid, "Properties.v")], cwd=COQ, timeout=timeout)
+    with FileLock("coq"):
+        rc, o, e = sh(["coqc", "-Q", ".", "Morfuse", "-w", "-all", os.path.join(cid, "Properties.v")], cwd=COQ, timeout=timeout)
     res = {"ok": rc == 0, "theorems": names, "assumptions": {}, "log": (o + e)[-4000:]}
     if rc != 0:
         return res
